@@ -256,3 +256,26 @@ def path_models(conds):
         if all(formula_eval(core, assign) == t for core, t in conds):
             out.append(assign)
     return out, atoms
+
+
+def control_dependences(fn, target):
+    """Branches the execution of `target` really depends on: two-way branch blocks from which `target` is reachable and
+    from which the function exit is also reachable WITHOUT passing `target`.  (A loop that must be left before the
+    target is reached is not a control dependence: the target post-dominates it.)  Returns [(cond core, block)]."""
+    g = fn.cfg
+    tp = g.position(target)
+    if tp is None:
+        return []
+    out = []
+    for B in g.blocks.values():
+        if B.id not in g.reachable or B.cond is None or len(B.raw_succs) != 2 or B.termk == "SwitchStmt":
+            continue
+        start = (B.id, len(B.elems) - 1)
+        if target.id not in g.reachable_from(start) and not (tp[0] == B.id):
+            continue
+        if tp[0] == B.id:
+            continue      # the target is evaluated in the block itself, before the branch
+        if g.escapes(start, {target.id}, goal="exit", through_abort=False):
+            core, neg = X.strip_bool(B.cond)
+            out.append((core, B))
+    return out
